@@ -1,4 +1,5 @@
 from algo_prop import make
+LEAN_EXTRA = ["PyXABProofs.Lemmas.OT_Bridge", "PyXABProofs.Generated.OrderTieC12"]
 ALGOS = ['SequOOL']
 budget, explore, search, replay = make("C12", ALGOS, quick_per_algo=24, thorough_per_algo=300, salt=1200)
 RULE = ("the documented pull/receive loop on the real classes: algorithm x partition class (K 2..5) x dimension 1..3 x box shape x "
@@ -75,3 +76,11 @@ def explore(tier, seed, n):
     res["n_ops"] += n_ops
     res.setdefault("extra", {})["hmax_values_enumerated"] = sw.meta["n_checked"]
     return res
+
+
+def regenerate(tier):
+    """translator ties re-proved on every run: numeric formulas traced from the real methods = published formulas over every
+    field (Spec/Formulas.lean), and selection rules run on order-only values for every order type = the model rules for all
+    values of any linear order (Spec/OrderType.lean, Props/OrderTie.lean)"""
+    import ties
+    return ties.regen("C12")
